@@ -24,8 +24,8 @@ MANIFEST = {
                   'rules and sets whose lengths straddle the cache fill batch.  Exploration: held on the queries observed.',
     'level_note': 'Trusts Python list semantics as the model; rules are finite by construction.',
 }
-PLAN = {'quick': {'shards': 6, 'timeout': 400, 'budget': 60},
-        'thorough': {'shards': 16, 'timeout': 1800, 'budget': 420}}
+PLAN = {'quick': {'shards': 6, 'timeout': 1800, 'budget': 900},
+        'thorough': {'shards': 16, 'timeout': 7200, 'budget': 2400}}
 N_CASES = {'quick': 120, 'thorough': 4000}
 
 
